@@ -85,7 +85,7 @@ POOL = ["ret", "nop", "push rax", "clc", "nop2", "xor eax, eax", "push r8", "add
         "add qword [rax+rcx*4+0x12345], 0x12345678", "add qword [eax+ecx*4+0x12345], 0x12345678", "mov qword [eax+ecx*4+0x12345], 0x12345678",
         "mov qword [r8d+r9d*4+0x12345], 0x12345678", "imul r8, [r8d+r9d*4+0x12345], 0x12345678", "add qword [r8d+r9d*4+0x12345], 0x12345678",
         "vpaddb ymm1, ymm2, ymm3", "vperm2i128 ymm1, ymm2, [rax+rcx*4+0x12345], 0x5", "paddb xmm1, xmm2", "mulx r8, r9, [rsi]", "cmovne rax, r11",
-        "shl rax, 0x5", "movq xmm1, rax", "jmp 0x4", "jne -0x1000", "call rax", "push 0x5", "call 0x100", "jmp long 0x10", "jne 0x10", "jrcxz 0x5", "xbegin 0x10", "jmp [rax]", "imul rax, rcx, 0x5", "setc al", "bzhi rax, rcx, rdx",
+        "shl rax, 0x5", "movq xmm1, rax", "mov cx, 0x12", "test bx, 0x7f", "mov word [rdi], 0x5", "add r9w, 0x1234", "jmp 0x4", "jne -0x1000", "call rax", "push 0x5", "call 0x100", "jmp long 0x10", "jne 0x10", "jrcxz 0x5", "xbegin 0x10", "jmp [rax]", "imul rax, rcx, 0x5", "setc al", "bzhi rax, rcx, rdx",
         # literals beyond 64 bits (accepted and clamped by the library: whatever they do, they must not influence later lines or calls)
         "add rcx, 0x1ffffffffffffffff", "push 99999999999999999999999", "mov rax, [rbx+0x10000000000000000]",
         # displacements wider than 32 bits (accepted and truncated by the library: whatever they do, no write may leave the buffer)
@@ -173,7 +173,7 @@ class Script:
 
     def create(self, i, kind, cap):
         self.state[i] = {"opt": ["SMART", "NASM", "NASM"], "fit": 0, "off": 0, "ext": kind in ("ext", "exta"), "cap": cap}
-        self.lines.append("C %d %s %d" % (i, kind, cap) if kind in ("ext", "exta") else "C %d int" % i)
+        self.lines.append("C %d %s %d" % (i, kind, cap) if kind in ("ext", "exta") else ("C %d int %d" % (i, cap) if cap else "C %d int" % i))
         self.meta.append({})
 
     def mirror(self, i):
@@ -666,6 +666,7 @@ def run(prop, tier, replay=None):
             scripts += [x for x in c13_boundary(L, rnd, tier) if x.sid.startswith(("C13-g", "C13-q"))]
         if prop == "C14":
             scripts += c14_edge(L, rnd, tier)
+            scripts += [x for x in c09_settings(L, rnd, tier) if x.sid.startswith("C09-k")][::2]      # counting sizes at every integer boundary, negative ones, with and without a count place
             scripts += [x for x in c19_scripts(L, rnd, tier) if x.sid.startswith("C19-end")]     # the file counting entry point at the end of the capacity
         if prop == "C15":
             scripts += [x for x in c13_boundary(L, rnd, tier) if x.sid.startswith("C13-qo")]
@@ -979,6 +980,17 @@ def c08_boundary(L, rnd, tier):
                 sc.offset(1, off + 7000)
                 sc.asm(1, small[:2], [L.text[x] for x in small[:2]])
                 out.append(sc)
+    # asm_create_instance(NULL, len): the length is documented as irrelevant without a buffer
+    for ln in (1, 19, 6020, 6021, 20000, 65536):
+        for total in (9000, 30000):
+            sc = Script("C08-n%d" % n); n += 1
+            sc.create(1, "int", ln)
+            sc.state[1]["cap"] = 0
+            sc.mirror(1)
+            body = build(total)
+            sc.asm(1, body, [L.text[x] for x in body])
+            sc.asm(1, small, [L.text[x] for x in small])
+            out.append(sc)
     # executable programs: nops, then mov rax, v ; ret, across a growth
     if tailkey:
         for mult in mults:
@@ -1118,9 +1130,9 @@ def c09_settings(L, rnd, tier):
     bad = L.bad[0]
     k3 = L.bylen[3][0]; k7 = (L.bylen.get(7) or L.bylen[3])[0]; k1 = L.bylen[1][0]
     sizes = [0, 1, 2, 3, 16, 6021, (1 << 31) - 1, 1 << 31, (1 << 32) - 1, 1 << 32, (1 << 32) + 9, 3 << 32, 1 << 62, 1 << 63, (1 << 63) + 8, (1 << 64) - 1]
-    counts = [0, 1, 2, 8, (1 << 31) - 1]
+    counts = [0, 1, 2, 8, (1 << 31) - 1, -1, -5, -(1 << 31)]
     if tier == "quick":
-        counts = [1, 8, (1 << 31) - 1]
+        counts = [1, 8, (1 << 31) - 1, -1, -(1 << 31)]
     for c in sizes:
         for kind in ("ext", "int"):
             for c2 in counts:
@@ -1137,7 +1149,7 @@ def c09_settings(L, rnd, tier):
                     if hist == "fail":
                         sc.asm(1, [k7, bad], [L.text[k7], L.text[bad]], count=c2)
                     if hist == "null":
-                        sc.lines.append("N 1 %d z t%d %s" % (c2, len(sc.lines), hx(L.text[k7]))); sc.meta.append({"prog": [k7]}); sc.state[1]["off"] = None
+                        sc.lines.append("N 1 %d z t%d %s" % (c2, len(sc.lines), hx(L.text[k7]))); sc.meta.append({"prog": [k7], "mustpass": True}); sc.state[1]["off"] = None
                     if hist == "twice":
                         sc.asm(1, [k3, k1, k3], [L.text[k3], L.text[k1], L.text[k3]], count=c2)
                     sc.offset(1, 14)
@@ -1147,6 +1159,8 @@ def c09_settings(L, rnd, tier):
                     out.append(sc)
     # the debug listing (asm_set_debug) switched on, in every mode, at start offsets from 0 to the end of the buffer (what the listing
     # prints is not judged; that printing it reads nothing outside the buffer is: the caller buffer ends 32 bytes before a guard page)
+    kv = [k for k, t in L.text.items() if t.startswith("vperm2i128") and k in L.codes and L.codes[k][0]][:1]
+    klong = [k for k in L.codes if L.codes[k][0] and len(L.codes[k][0]) >= 16][:3]
     for c in (0, 8, 16, 1 << 32):
         for kind, offs in (("ext", (0, 14, 300, 520, 560)), ("int", (0, 3000, 5950, 6000, 12100))):
             for off in offs:
@@ -1158,6 +1172,9 @@ def c09_settings(L, rnd, tier):
                     sc.offset(1, off)
                     sc.asm(1, [k7, k3], [L.text[k7], L.text[k3]])
                     sc.asm(1, [k3, k1, k3], [L.text[k3], L.text[k1], L.text[k3]], count=(8 if second == "count" else None))
+                    if kind == "ext" and off <= 300 or kind == "int" and off <= 3000:
+                        # the four-operand forms twice in a row and the longest encodings, listed
+                        sc.asm(1, kv + kv + klong, [L.text[x] for x in kv + kv + klong], count=(8 if second == "count" else None))
                     sc.lines.append("G 1 0"); sc.meta.append({})
                     sc.asm(1, [k3], [L.text[k3]])
                     out.append(sc)
@@ -1488,6 +1505,17 @@ def c19_scripts(L, rnd, tier):
         sc.create(1, "ext", 200)
         sc.asm_file(1, [L.bylen[3][0]], pct, count=cnt)
         out.append(sc)
+    # contents the string entry points reject must be rejected from a file as well: a UTF-8 byte order mark in front of valid code, a
+    # non-ASCII byte in the first line
+    for k_, blob in enumerate((b"\xef\xbb\xbf" + L.text[L.bylen[3][0]].encode() + b"\n", b"\xef\xbb\xbf\n" + L.text[L.bylen[3][0]].encode() + b"\n", b"\xfe\xff" + L.text[L.bylen[1][0]].encode() + b"\n")):
+        fb = os.path.join(d, "bom%d.asm" % k_); open(fb, "wb").write(blob)
+        for cnt in (None, 4):
+            sc = Script("C19-bom%d" % n); n += 1
+            sc.create(1, "ext", 200)
+            sc.asm(1, [L.bylen[3][0]], [L.text[L.bylen[3][0]]])
+            sc.asm_file(1, [], fb, count=cnt, expectfail=True)
+            sc.asm(1, [L.bylen[3][0]], [L.text[L.bylen[3][0]]])
+            out.append(sc)
     # an empty file behind earlier file calls on small files (what the reader allocates for it is recycled memory by then)
     fempty = os.path.join(d, "empty0.asm"); open(fempty, "w").close()
     ftiny = os.path.join(d, "tiny1.asm"); open(ftiny, "w").write(L.text[L.bylen[1][0]] + "\n")
